@@ -305,6 +305,7 @@ CLASS_NAMES = {
     "K02h": "stack_overflow_diagnostic_prints_instruction_listing",
     "K02i": "local_read_as_operand_then_moved_by_later_operand_in_native_code",
     "K02j": "panic_inside_native_frame_aborts_instead_of_unwinding",
+    "K02k": "null_test_on_empty_vector",
 }
 CLASS_ALIASES = {"K02a": ("global_defined_and_read_in_one_unit_assigned_later",)}   # K06a: the same defect seen by C06
 IDX_INLINE_RECURSIVE = SWITCH_NAMES.index("STEEL_INLINE_RECURSIVE")
@@ -327,7 +328,9 @@ def k02e_signature(r_on, r_off):
     if len(a) != len(b):
         return False
     vals_ok = all(x == y or re.search(r"\berr\b", y) for x, y in zip(a, b))
-    out_ok = r_on["out"] == r_off["out"] or bool(re.search(r"\berr\b", r_off["out"]))
+    lon, loff = r_on["out"].split("\n"), r_off["out"].split("\n")
+    out_ok = r_on["out"] == r_off["out"] or (
+        len(lon) == len(loff) and all(x == y or re.search(r"\berr\b", y) for x, y in zip(lon, loff)))
     return vals_ok and out_ok
 
 
@@ -529,7 +532,13 @@ def process(ctx, batch, configs, values, stats, known, recs=None):
     if recs is None:
         recs = run_all_configs(batch.items, configs, values)
         ctx.log("%s: %d items x %d configurations in %.0fs" % (batch.label, len(batch.items), len(configs), time.time() - t))
-    spec, src = ([None] * len(batch.items), 0) if batch.nospec else run_spec(batch.spec)
+    def skip_spec(i):
+        cls = batch.cls[i]
+        return (isinstance(cls, dict) and cls.get("nospec")) or any("(require " in p or "#%prim." in p for p in batch.items[i])
+
+    # items the reference semantics has no reading of (modules, qualified builtins) or cannot finish are replaced by `0`
+    spec, src = ([None] * len(batch.items), 0) if batch.nospec else \
+        run_spec([["0"] if skip_spec(i) else sp for i, sp in enumerate(batch.spec)])
     if src != 0 or len(spec) != len(batch.items):
         ctx.notes.append("%s: reference evaluator returned %d of %d items (rc=%d)" % (batch.label, len(spec), len(batch.items), src))
         spec = spec + [None] * (len(batch.items) - len(spec))
@@ -598,6 +607,10 @@ def process(ctx, batch, configs, values, stats, known, recs=None):
                 attributed = "K02g"
             if attributed is None and jit_split and "K02i" in known and operand_moved_later(item_text(batch, i)):
                 attributed = "K02i"
+            if attributed is None and jit_split and "K02k" in known and "(vector" in item_text(batch, i) and \
+                    re.search(r"null\?|foldl|foldr|reduce|filter|\(map ", item_text(batch, i)):
+                # an (empty) vector reaches a (if (null? l) ...) test, directly or inside a list-library procedure
+                attributed = "K02k"
             if attributed is None and "K02e" in known:
                 off = [n for n in names if n[IDX_JIT] == "1"]     # bit set = STEEL_JIT=false
                 on = [n for n in names if n[IDX_JIT] == "0"]
@@ -629,7 +642,7 @@ def process(ctx, batch, configs, values, stats, known, recs=None):
         s = spec[i]
         if base is None or s is None or batch.nospec:
             continue
-        if any("(require " in p or "#%prim." in p for p in pieces):
+        if skip_spec(i):
             continue                      # the reference semantics has neither modules nor qualified builtins
         for j, (r, m) in enumerate(zip(base, s)):
             if r is None or m is None:
@@ -687,7 +700,8 @@ def corpus_items():
         if not os.path.isfile(os.path.join(cdir, fn)):
             continue
         text = "\n".join(l for l in open(os.path.join(cdir, fn)).read().split("\n") if not l.startswith("#"))
-        cls = {"K02a": fn.startswith("k02a"), "K02c": fn.startswith("k02c") or fn.startswith("k02d")}
+        cls = {"K02a": fn.startswith("k02a"), "K02c": fn.startswith("k02c") or fn.startswith("k02d"),
+               "nospec": fn.startswith("k02h")}      # unbounded recursion: the reference evaluator would run out its fuel
         for p in text.split(SEP):
             if p.strip():
                 pieces = [x.strip("\n") for x in p.strip("\n").split(PSEP)]
@@ -916,6 +930,21 @@ def run(ctx):
         h = gen_jitops_program(rng)
         stats["features"]["jit-operand-types"] = stats["features"].get("jit-operand-types", 0) + 1
         b.add(h["pieces"])
+    batches.append(b)
+
+    # 4d. the same operand-type programs as MODULES (every primitive is then a specialised op code in native code)
+    b = Batch("jitops-as-module")
+    b.nospec = True
+    import hashlib
+    for _ in range(10 if q else 120):
+        h = gen_jitops_program(rng)
+        lines = "\n".join(h["pieces"]).split("\n")
+        text = "\n".join(l if l.startswith("(define ") else "(displayln %s)" % l for l in lines) + "\n"
+        path = os.path.join(pm_dir, "jitops-%s.scm" % hashlib.sha1(text.encode()).hexdigest()[:12])
+        with open(path, "w") as fh:
+            fh.write(text)
+        stats["features"]["jit-operand-types-as-module"] = stats["features"].get("jit-operand-types-as-module", 0) + 1
+        b.add(["(require \"%s\")" % path], meta=text, cls={"text": text})
     batches.append(b)
 
     # 5. model histories (lowered-core): the Lean model predicts the value under every configuration inside the guard
